@@ -268,7 +268,7 @@ func (e Engine) Generate(r *core.Rand, tier core.Tier) *core.Scenario {
 			b.Byz = []string{"meta-missing", "meta-duplicate", "meta-wrong-root", "meta-wrong-events", "meta-wrong-signer"}[r.Intn(5)]
 		}
 		for i, n := 0, r.Pick([]int{4, 3, 2, 1}); i < n; i++ {
-			b.Steps = append(b.Steps, Step{Replica: r.Intn(nrep), Call: r.Range(1, 12), Kind: []string{"checktx", "recheck", "query", "prune", "query"}[r.Intn(5)], Arg: r.Intn(1000)})
+			b.Steps = append(b.Steps, Step{Replica: r.Intn(nrep), Call: r.Range(1, 12), Kind: []string{"checktx", "recheck", "query", "prune", "query", "estimate"}[r.Intn(6)], Arg: r.Intn(1000)})
 		}
 		sc.Ops = append(sc.Ops, core.MustJSON(Op{K: "block", Block: b}))
 	}
